@@ -18,9 +18,9 @@ ADDED = {
     "C08": "Later additions: _update_ref unwatches through the namespace of the object the watcher was registered on (its instance unless None, whatever its truth value), _syncing (the set of names being synced is swapped and restored on every exit), Parameters.update (links handed to the restorer for mapping and keywords alike), resolve_value on lists of any length (every item resolved; recursive call by contract; assumption A-RV), the constructor link clause, and the probe on bind's generated dependency keywords. Eighth round: Parameters._sync_refs for two and three links and one event (delivered <=> depends on the changed parameter and the reference yields a value; a Skip leaves only its own link alone; own nested_refs flag; one update).",
     "C09": "Later additions: Comparator.compare_iterator/compare_mapping (a genuine change of a container value is never suppressed; carried from C03), resolve_value on lists of any length (every item is resolve_value(item); a container handed back as it is must contain only items that resolve to themselves, assumption A-RV).",
     "C10": "Later additions: the constructor link clause of _setup_params (a reference without parameter dependencies is still recorded), _syncing restores on exceptions. Eighth round: probe on a real event loop for pipe(coroutine, reactive argument) over one or two updates and every completion order.",
-    "C11": "Later additions: Parameter.__init__ and five constructors (what a declaration leaves unspecified stays Undefined), add_parameter, the re-validation and type-change blocks of __param_inheritance, and the block installing the merged slot values (an inherited mutable container is the Parameter's own copy before _update_state may mutate it).",
+    "C11": "Later additions: Parameter.__init__ and five constructors (what a declaration leaves unspecified stays Undefined), add_parameter, the re-validation and type-change blocks of __param_inheritance, and the block installing the merged slot values (an inherited mutable container is the Parameter's own copy before _update_state may mutate it). Eighth round: the metaclass __setattr__ contract carried from C13 (a Parameter object refused while its inherited attributes are merged is taken off the class again, /repo fix 6bd8429).",
     "C12": "Later additions: Parameters.self_or_cls (the instance whenever there is one, whatever its truth value), get_param_descriptor, _instantiate_param (deep copy whatever the outer type), the metaclass __setattr__ copy-on-write, the class parameter table, and the slot-installation block of __param_inheritance (no crosstalk with the ancestor's containers). Eighth round: block contract on Parameterized.__init__ (initialized on every exit) carried from C14.",
-    "C13": "Later additions: get_param_descriptor (the nearest declaring class of an arbitrary class list), the metaclass __setattr__ slot-copying loop, get_value_generator for Dynamic parameters, the class parameter table and its cache clearing, add_parameter.",
+    "C13": "Later additions: get_param_descriptor (the nearest declaring class of an arbitrary class list), the metaclass __setattr__ slot-copying loop, get_value_generator for Dynamic parameters, the class parameter table and its cache clearing, add_parameter. Eighth round: the metaclass __setattr__ contract models the naming of an assigned Parameter object and demands the roll-back of a Parameter refused by the merge (/repo fix 6bd8429).",
     "C14": "Later additions: the class-level route (metaclass __setattr__: every plain value reaches the descriptor exactly once; get_param_descriptor), edit_constant (every flag restored on every exit, for any number of parameters), Parameters.__getitem__ (instance-level copy keeps constant/readonly), Parameter.__init__ (readonly implies constant), the setter's link clauses. Eighth round: block contract on Parameterized.__init__ (the object is marked initialized on every exit, whichever constructor step fails); Parameters._sync_refs carried from C08 (the only writer of a linked constant goes through edit_constant); probe: constants stay pinned on instances made inside shared_parameters() and on copies.",
     "C15": "Later additions: the four object loops of serialize/deserialize_parameters (every parameter visited once, no value lost), get_value_generator.",
     "C05": "Later additions: Event.__set__ (the event is reset exactly once on every exit, whatever exception type the inherited setter or a watcher raises), the quick tier of the C07 bounded layer is carried for failing watch=True methods (a raising method leaves the dynamic watchers re-registered). Eighth round: Parameters._sync_refs (the delivery of a source value runs inside edit_constant and _syncing) carried from C08; probe: after an update that fails at any of its keys every Event of the call is off and self-resetting.",
